@@ -23,13 +23,14 @@ def arm_targets(t):
     return arms, t["otherwise"]
 
 
-def exclusive_blocks(b, target, other_targets):
-    """Blocks reachable from `target` that are not reachable from any other arm target."""
-    mine = b.reach([target])
+def exclusive_blocks(b, target, other_targets, stop=()):
+    """Blocks reachable from `target` that are not reachable from any other arm target.
+    `stop`: blocks that end the search (e.g. a loop header, to stay within one iteration)."""
+    mine = b.reach([target], avoid=stop)
     others = set()
     for o in other_targets:
         if o != target:
-            others |= b.reach([o])
+            others |= b.reach([o], avoid=stop)
     return mine - others
 
 
